@@ -15,6 +15,7 @@ import (
 	"tags.cncf.io/container-device-interface/verifshim/vfs"
 	"tags.cncf.io/container-device-interface/verifshim/vfsnotify"
 	"tags.cncf.io/container-device-interface/verifshim/vsync"
+	"tags.cncf.io/container-device-interface/verifshim/vtime"
 )
 
 // Bounds on deviations from the default execution.
@@ -97,6 +98,7 @@ var LastOps []string
 // RunOnce executes the scenario with the given choice prefix.
 func RunOnce(sc *Scenario, prefix []int, logOps bool) (*sched.Exec, *Instance, *Violation) {
 	vsync.ResetChannels()
+	vtime.Reset()
 	vfsnotify.ResetLog()
 	for _, f := range BeforeExec {
 		f()
